@@ -19,6 +19,8 @@ pub type Tid = u32;
 pub enum Nest {
     Thunk(EffId),
     Mw(CompId, Hook, ActId),
+    /// forwarded from inside on_notify of a subscriber, while it was told about the action
+    Sub(SubId, ActId),
 }
 
 #[derive(Clone, Debug, PartialEq, Eq, Hash, Serialize, Deserialize)]
